@@ -83,7 +83,13 @@ func thesaurusReuse(ts segment.ThesaurusSegment, exp *ref.Content, a *run.Acc, w
 	for _, l1 := range looks {
 		for _, l2 := range looks {
 			for _, except := range []*roaring.Bitmap{nil, oneDoc} {
-				for _, consume := range []int{0, 1, -1} {
+				for _, consume := range []int{0, 1, -1, 10, 11, 9} {
+					// consume >= 9: only the ITERATOR is handed on (after consume-10 calls); the first
+					// list stays in use and must still describe its own pairs afterwards
+					donateOnly := consume >= 9
+					if donateOnly {
+						consume -= 10
+					}
 					th1, err := ts.Thesaurus(l1.name)
 					if err != nil {
 						return fmt.Sprintf("%s: Thesaurus(%q): %v", where, l1.name, err)
@@ -106,7 +112,11 @@ func thesaurusReuse(ts segment.ThesaurusSegment, exp *ref.Content, a *run.Acc, w
 					if err != nil {
 						return fmt.Sprintf("%s: Thesaurus(%q): %v", where, l2.name, err)
 					}
-					sl2, err := th2.SynonymsList([]byte(l2.term), except, sl)
+					pre := sl
+					if donateOnly {
+						pre = nil
+					}
+					sl2, err := th2.SynonymsList([]byte(l2.term), except, pre)
 					if err != nil {
 						return fmt.Sprintf("%s: lookup (%q,%q) reusing the list of (%q,%q): %v", where, l2.name, l2.term, l1.name, l1.term, err)
 					}
@@ -131,7 +141,31 @@ func thesaurusReuse(ts segment.ThesaurusSegment, exp *ref.Content, a *run.Acc, w
 					a.Eval(1)
 					want := filterPairs(exp.Thes[l2.name][l2.term], except)
 					if fmt.Sprint(got) != fmt.Sprint(want) && !(len(got) == 0 && len(want) == 0) {
-						return fmt.Sprintf("%s: lookup (%q,%q,except %v) reusing the list and iterator of (%q,%q) (after %d calls): got %v want %v", where, l2.name, l2.term, except, l1.name, l1.term, consume, got, want)
+						return fmt.Sprintf("%s: lookup (%q,%q,except %v) reusing the list and iterator of (%q,%q) (after %d calls; iterator only: %v): got %v want %v", where, l2.name, l2.term, except, l1.name, l1.term, consume, donateOnly, got, want)
+					}
+					if donateOnly {
+						var again []ref.SynPair
+						it3 := sl.Iterator(nil)
+						for {
+							s, err := it3.Next()
+							if err != nil {
+								return fmt.Sprintf("%s: list of (%q,%q) after its iterator was handed to (%q,%q): %v", where, l1.name, l1.term, l2.name, l2.term, err)
+							}
+							if s == nil {
+								break
+							}
+							again = append(again, ref.SynPair{Syn: s.Term(), Doc: s.Number()})
+						}
+						sort.Slice(again, func(x, y int) bool {
+							if again[x].Syn != again[y].Syn {
+								return again[x].Syn < again[y].Syn
+							}
+							return again[x].Doc < again[y].Doc
+						})
+						want1 := exp.Thes[l1.name][l1.term]
+						if fmt.Sprint(again) != fmt.Sprint(want1) && !(len(again) == 0 && len(want1) == 0) {
+							return fmt.Sprintf("%s: the list of (%q,%q), still in use after only its ITERATOR was handed to the lookup (%q,%q,except %v), now yields %v, want %v", where, l1.name, l1.term, l2.name, l2.term, except, again, want1)
+						}
 					}
 				}
 			}
@@ -144,7 +178,7 @@ func init() {
 	run.Register(&run.Def{
 		ID:          "C12",
 		Level:       "exploration",
-		Rule:        "bounded-exhaustive: every batch of 1..3 documents where each document is an ordinary text document or a synonym document for thesaurus s1/s2 with one of 7 entry shapes (a->[x]; a->[x,y]; b->[y]; two entries in both enumeration orders; reversed synonym list; duplicate synonym), at least one synonym document; both build tags; in-memory and persisted+re-opened. Oracle: thesaurus keys ascending == defined terms, Contains agrees, and for every (thesaurus in {s1,s2,absent,ordinary field,_id}, term in {a,b,absent,empty}, EVERY exclusion bitmap) the (synonym, doc) pairs == reference, each once; plus every ordered pair of lookups over 3 thesaurus names x 3 terms where the second lookup is handed the first one's SynonymsList and SynonymsIterator as preallocation (after 0 / 1 / all Next calls), with and without exclusion; synonym fields have empty ordinary dictionaries and ordinary fields are unaffected (full postings/stored dump). Non-trivial = >= 2 synonym documents.",
+		Rule:        "bounded-exhaustive: every batch of 1..3 documents where each document is an ordinary text document or a synonym document for thesaurus s1/s2 with one of 7 entry shapes (a->[x]; a->[x,y]; b->[y]; two entries in both enumeration orders; reversed synonym list; duplicate synonym), at least one synonym document; both build tags; in-memory and persisted+re-opened. Oracle: thesaurus keys ascending == defined terms, Contains agrees, and for every (thesaurus in {s1,s2,absent,ordinary field,_id}, term in {a,b,absent,empty}, EVERY exclusion bitmap) the (synonym, doc) pairs == reference, each once; plus every ordered pair of lookups over 3 thesaurus names x 3 terms where the second lookup is handed the first one's SynonymsList and SynonymsIterator as preallocation (after 0 / 1 / all Next calls), with and without exclusion, and the variant in which only the iterator is handed on while the first list stays in use and is read again afterwards; synonym fields have empty ordinary dictionaries and ordinary fields are unaffected (full postings/stored dump). Non-trivial = >= 2 synonym documents.",
 		Assumptions: batchAssumptions,
 		Bounds:      map[string]string{"quick": "N<=3 (15 document kinds), all exclusion bitmaps", "thorough": "N<=3 plus N=4 over a 5-kind menu"},
 		Flavours:    plainAndVec,
